@@ -15,6 +15,7 @@
 
 #include <dispenso/detail/per_thread_info.h>
 #include <dispenso/thread_pool.h>
+#include <dispenso/detail/verif_hooks.h>
 
 namespace dispenso {
 
@@ -62,6 +63,7 @@ class TaskSetBase {
     if (parent_) {
       parent_->registerChild(this);
       if (parent_->canceled()) {
+        DISPENSO_VERIF_POINT("ts.ctor.cancel.store", this);
         canceled_.store(true, std::memory_order_release);
       }
     }
@@ -79,11 +81,13 @@ class TaskSetBase {
   }
 
   void cancel() {
+    DISPENSO_VERIF_POINT("ts.cancel.store", this);
     canceled_.store(true, std::memory_order_release);
     cancelChildren();
   }
 
   bool canceled() const {
+    DISPENSO_VERIF_POINT("ts.canceled.load", this);
     return canceled_.load(std::memory_order_acquire);
   }
 
@@ -94,6 +98,7 @@ class TaskSetBase {
    **/
 #if defined(__cpp_exceptions)
   bool hasException() const {
+    DISPENSO_VERIF_POINT("ts.hasException.load", this);
     return guardException_.load(std::memory_order_acquire) != kUnset;
   }
 #else
@@ -115,6 +120,7 @@ class TaskSetBase {
  protected:
   template <typename F>
   auto packageTask(F&& f) {
+    DISPENSO_VERIF_POINT("ts.package.inc", this);
     outstandingTaskCount_.fetch_add(1, std::memory_order_acquire);
     return [this, f = std::move(f)]() mutable {
       // Skip push/pop if this TaskSet is already the current parent on this
@@ -125,20 +131,24 @@ class TaskSetBase {
       if (pushed) {
         detail::pushThreadTaskSet(this);
       }
+      DISPENSO_VERIF_POINT("ts.task.canceled.load", this);
       if (!canceled_.load(std::memory_order_acquire)) {
 #if defined(__cpp_exceptions)
         try {
+          DISPENSO_VERIF_POINT("ts.task.body", this);
           f();
         } catch (...) {
           trySetCurrentException();
         }
 #else
+        DISPENSO_VERIF_POINT("ts.task.body", this);
         f();
 #endif // __cpp_exceptions
       }
       if (pushed) {
         detail::popThreadTaskSet();
       }
+      DISPENSO_VERIF_POINT("ts.task.dec", this);
       outstandingTaskCount_.fetch_sub(1, std::memory_order_release);
     };
   }
@@ -154,20 +164,24 @@ class TaskSetBase {
       if (pushed) {
         detail::pushThreadTaskSet(this);
       }
+      DISPENSO_VERIF_POINT("ts.task.canceled.load", this);
       if (!canceled_.load(std::memory_order_acquire)) {
 #if defined(__cpp_exceptions)
         try {
+          DISPENSO_VERIF_POINT("ts.task.body", this);
           f();
         } catch (...) {
           trySetCurrentException();
         }
 #else
+        DISPENSO_VERIF_POINT("ts.task.body", this);
         f();
 #endif // __cpp_exceptions
       }
       if (pushed) {
         detail::popThreadTaskSet();
       }
+      DISPENSO_VERIF_POINT("ts.task.dec", this);
       outstandingTaskCount_.fetch_sub(1, std::memory_order_release);
     };
   }
@@ -179,11 +193,13 @@ class TaskSetBase {
     detail::InlineDepthGuard depthGuard;
 #if defined(__cpp_exceptions)
     try {
+      DISPENSO_VERIF_POINT("ts.inline.body", this);
       gen(i)();
     } catch (...) {
       trySetCurrentException();
     }
 #else
+    DISPENSO_VERIF_POINT("ts.inline.body", this);
     gen(i)();
 #endif // __cpp_exceptions
   }
@@ -213,10 +229,12 @@ class TaskSetBase {
 
     // Ring fast path: for kStatic parallel_for where count ≈ numPool.
     // Push task i directly to ring i for deterministic thread-to-chunk affinity.
+    DISPENSO_VERIF_POINT("ts.bulk.ring.check", this);
     if (count * 4 >= static_cast<size_t>(numPool) && count <= static_cast<size_t>(numPool) &&
         pool_.numRings_.load(std::memory_order_relaxed) >= count &&
         !detail::PerPoolPerThreadInfo::isPoolRecursive(&pool_) &&
         outstandingTaskCount_.load(std::memory_order_relaxed) <= taskSetLoadFactor_) {
+      DISPENSO_VERIF_POINT("ts.bulk.ring.inc", this);
       outstandingTaskCount_.fetch_add(static_cast<ssize_t>(count), std::memory_order_acquire);
       pool_.scheduleBulkToRings(
           count, [this, &gen](size_t j) { return packageTaskNoIncrement(gen(j)); }, token);
@@ -234,6 +252,7 @@ class TaskSetBase {
       if (canceled()) {
         break;
       }
+      DISPENSO_VERIF_POINT("ts.bulk.outstanding.load", this);
       ssize_t outstanding = outstandingTaskCount_.load(std::memory_order_relaxed);
       ssize_t curWork = pool_.workRemaining_.load(std::memory_order_relaxed);
       ssize_t room = taskSetLoadFactor_ - outstanding;
@@ -248,6 +267,7 @@ class TaskSetBase {
         // when the task-set load factor says there is no room.
         size_t enqueueLimit = room > 0 ? std::min(chunkSize, static_cast<size_t>(room)) : chunkSize;
         size_t toEnqueue = std::min(count - i, enqueueLimit);
+        DISPENSO_VERIF_POINT("ts.bulk.inc", this);
         outstandingTaskCount_.fetch_add(static_cast<ssize_t>(toEnqueue), std::memory_order_acquire);
         size_t base = i;
         pool_.scheduleBulkEnqueue(
@@ -279,6 +299,7 @@ class TaskSetBase {
       if (canceled()) {
         break;
       }
+      DISPENSO_VERIF_POINT("ts.bulkp.outstanding.load", this);
       ssize_t outstanding = outstandingTaskCount_.load(std::memory_order_relaxed);
       ssize_t curWork = pool_.workRemaining_.load(std::memory_order_relaxed);
       ssize_t room = taskSetLoadFactor_ - outstanding;
@@ -292,6 +313,7 @@ class TaskSetBase {
         // when the task-set load factor says there is no room.
         size_t enqueueLimit = room > 0 ? std::min(chunkSize, static_cast<size_t>(room)) : chunkSize;
         size_t toEnqueue = std::min(count - i, enqueueLimit);
+        DISPENSO_VERIF_POINT("ts.bulkp.inc", this);
         outstandingTaskCount_.fetch_add(static_cast<ssize_t>(toEnqueue), std::memory_order_acquire);
         size_t base = i;
         pool_.scheduleBulkPlaced(toEnqueue, [this, &gen, base](size_t j) {
@@ -323,6 +345,7 @@ class TaskSetBase {
         break;
       }
       size_t toEnqueue = std::min(count - i, chunkSize);
+      DISPENSO_VERIF_POINT("ts.bulkfq.inc", this);
       outstandingTaskCount_.fetch_add(static_cast<ssize_t>(toEnqueue), std::memory_order_acquire);
       size_t base = i;
       pool_.scheduleBulkEnqueue(
